@@ -549,6 +549,10 @@ func c12Rows(shape string, a c12Answer, cs *c12Case) [][]driver.Value {
 			row = []driver.Value{uint64(1), lbl, `{"v":1}`, cs.To}
 		case "spans-empty-otlp":
 			row = []driver.Value{strings.Repeat("\x01", 16), strings.Repeat("\x02", 8), "", cs.From, int64(5), int8(2), ""}
+		case "spans-otlp-novalue":
+			// an OTLP span (protobuf) whose attribute "a" has no value: legal protobuf, stored as received
+			row = []driver.Value{strings.Repeat("\x01", 16), strings.Repeat("\x02", 8), "", cs.From + int64(i), int64(5), int8(2),
+				"\x0a\x10" + strings.Repeat("\x01", 16) + "\x12\x08" + strings.Repeat("\x02", 8) + "\x2a\x01n" + "\x4a\x03\x0a\x01a"}
 		case "matrix-zero-ts":
 			row = []driver.Value{uint64(7), lbl, float64(1), int64(0)}
 		case "matrix":
